@@ -6,6 +6,12 @@ TC = 'thread/thread.cpp'
 TH = 'thread/thread.h'
 OW = [(r'owner\.compare_exchange_strong\(ptr, CURRENT,\s*std::memory_order_acq_rel, std::memory_order_relaxed\)', 'owner_cas(this, &ptr, CURRENT)', 0),
       (r'owner\.load\([^)]*\)', 'owner_load(this)', 0), (r'\bthread\* ptr = NULL;', 'struct thread *ptr = NULL;', 0)]
+QS = [(r'asm volatile\("": "\+r"\(h\)\);', ';', 0), (r'&qslholder', '&QSLH', 1), (r'\bholder\*', 'struct holder *', 0),
+      (r'_owner_tail\.compare_exchange_strong\((\w+),\s*([^,]+), std::memory_order_acq_rel\)', r'qs_cas(this, &\1, \2)', 0),
+      (r'_owner_tail\.exchange\((\w+), std::memory_order_acq_rel\)', r'qs_xchg(this, \1)', 0),
+      (r'(\w+)->got_lock\.store\((\w+), [^)]*\)', r'qs_store_got(this, \1, \2)', 0), (r'(\w+)->got_lock\.load\([^)]*\)', r'qs_load_got(this, \1)', 0),
+      (r'(\w+)->next\.store\((\w+), [^)]*\)', r'qs_store_next(this, \1, \2)', 0), (r'(\w+)->next\.load\([^)]*\)', r'qs_load_next(this, \1)', 0),
+      (r'(?<![\w>.])spin_wait\(\);', ';', 0), (r'\bint\((\w+)\)', r'(int)(\1)', 0)]
 TARGETS = [
     Target('waitq_translate_errno', TC, r'inline int waitq_translate_errno\(int ret\)'),
     Target('try_lock', TC, r'int mutex::try_lock\(\)', rules=OW),
@@ -46,14 +52,23 @@ TARGETS = [
     Target('tk_unlock', TC, r'void ticket_spinlock::unlock\(\)', rules=[
         (r'const __auto_type successor = serv\.load\(std::memory_order_relaxed\) \+ 1;', 'const size_t successor = this->serv + 1;', 1),
         (r'serv\.store\(successor, std::memory_order_release\);', 'T_store_serv(this, successor);', 1)]),
+    Target('qs_try_lock', TC, r'int qspinlock::try_lock\(\)', rules=QS),
+    Target('qs_lock', TC, r'int qspinlock::lock\(\)', rules=QS, marks={'count': 1, 0: dict(name='QL', frame=['this', 'QSLH', 'SUCC_PENDING', 'SUCC_LINKED', 'HANDED_TO_ME', 'SAW_GOT'],
+           effects={'qs_load_got': ['this', 'QSLH', 'SUCC_PENDING', 'SUCC_LINKED', 'HANDED_TO_ME', 'SAW_GOT']}, pure=[])}),
+    Target('qs_unlock', TC, r'void qspinlock::unlock\(\)', rules=QS, marks={'count': 1, 0: dict(name='QU', frame=['this', 'QSLH', 'SUCC', 'next', 'expected', 'ME', 'SUCC_PENDING', 'SUCC_LINKED', 'N_TAIL_W', 'N_HANDOFF', 'TAIL_W_OLD', 'TAIL_W_NEW', 'HANDOFF_TO'],
+           effects={'qs_load_next': ['this', 'QSLH', 'SUCC_PENDING', 'SUCC_LINKED'], 'qs_store_next': ['this', 'QSLH', 'SUCC_PENDING', 'SUCC_LINKED'], 'qs_store_got': ['this', 'QSLH', 'SUCC', 'ME', 'SUCC_PENDING', 'SUCC_LINKED', 'N_HANDOFF', 'HANDOFF_TO'],
+                    'qs_cas': ['this', 'expected', 'QSLH', 'ME', 'SUCC_PENDING', 'SUCC_LINKED', 'N_TAIL_W', 'TAIL_W_OLD', 'TAIL_W_NEW']}, pure=[], ptr_targets={'next': ['SUCC'], 'h': ['QSLH']})}),
 ]
-UNITS = {'mutex.c': 'mutex.c.in'}
+UNITS = {'mutex.c': 'mutex.c.in', 'qspin.c': 'qspin.c.in'}
 PROOFS = [
     Proof('mutex/try_lock', 'mutex.c', 'h_try_lock', kind='L', min_obligations=2),
     Proof('mutex/lock', 'mutex.c', 'h_lock', kind='L', min_obligations=5),
     Proof('mutex/unlock', 'mutex.c', 'h_unlock', kind='L', min_obligations=4),
     Proof('recursive_mutex', 'mutex.c', 'h_recursive', kind='L', min_obligations=3),
     Proof('spinlock', 'mutex.c', 'h_spinlock', kind='L', min_obligations=3),
+    Proof('qspinlock/try_lock', 'qspin.c', 'h_qs_try_lock', kind='L', min_obligations=2),
+    Proof('qspinlock/lock', 'qspin.c', 'h_qs_lock', kind='L', min_obligations=3),
+    Proof('qspinlock/unlock', 'qspin.c', 'h_qs_unlock', kind='L', min_obligations=3),
     Proof('ticket_spinlock', 'mutex.c', 'h_ticket', kind='L', min_obligations=3),
 ]
 NATIVES = []
